@@ -38,9 +38,15 @@ Usable(c) ==
     /\ \E j1, j2, j3 \in 1..c.n : c.z[j1] # c.z[j2] /\ c.z[j2] # c.z[j3] /\ c.z[j1] # c.z[j3]
     /\ \A i \in 1..c.d : \E j1, j2 \in 1..c.n : c.z[j1][i] # c.z[j2][i]
 
+\* corr = "lr": identity plus a rank-r term, estimator run with an eigenvalue cut-off just above 1 (nothing is
+\* cut); corr = "equi": equicorrelated with rho = 4/5 or 9/10, estimator run with its DEFAULT cut-off 2 - every
+\* eigenvalue of the rescaled covariance (1 + (d-1) rho and 1 - rho, d >= 3) lies outside [1/2, 2], so nothing may be cut
 LowRankCases ==
-    {[kind |-> "gauss_lowrank", d |-> d, n |-> d + extra, rank |-> r, e |-> e, mu |-> mu, seed |-> s] :
+    {[kind |-> "gauss_lowrank", d |-> d, n |-> d + extra, rank |-> r, e |-> e, mu |-> mu, seed |-> s, corr |-> "lr"] :
         d \in LowRankDims, extra \in {2, 5}, r \in Ranks, e \in Exps, mu \in Mus, s \in 1..3}
+    \cup
+    {[kind |-> "gauss_lowrank", d |-> d, n |-> d + extra, rank |-> 0, e |-> e, mu |-> mu, seed |-> s, corr |-> "equi"] :
+        d \in LowRankDims \ {2}, extra \in {2, 5}, e \in Exps, mu \in Mus, s \in 1..3}
 
 \* evaluated once when TLC starts: one line per case
 ASSUME \A c \in {x \in DiagCases : Usable(x)} : PrintT(<<"REPLAY", ToJson(c)>>)
